@@ -113,6 +113,34 @@ def scan_guards(ctx):
                     if not any(len(c) == 1 and next(iter(c)) == (q, True) for c in cl):
                         bad.append(f"`{norm(a, 50)}` (line {a.lineno}) is not guarded by query(point of `{item}`) "
                                    f"being true")
+            # results must not be filtered by the stored *values* (only by filter / query / requested keys)
+            vals = set()
+            for n in walk_local(lp):
+                if isinstance(n, ast.For) and isinstance(n.target, ast.Tuple) and len(n.target.elts) == 2 \
+                        and isinstance(n.iter, ast.Call) and call_name(n.iter) == "items" \
+                        and isinstance(n.target.elts[1], ast.Name):
+                    vals.add(n.target.elts[1].id)
+                if isinstance(n, ast.Assign) and len(n.targets) == 1 and isinstance(n.targets[0], ast.Name):
+                    t_ = norm(n.value)
+                    if (".fields" in t_ or ".tags" in t_) and (".get(" in t_ or isinstance(n.value, ast.Subscript)):
+                        vals.add(n.targets[0].id)
+            if f.name in GETTERS or f.name in QUERY_CONSUMERS:
+                import re as _re
+                for a in acc:
+                    if rewriting:
+                        continue
+                    for c in guard_clauses(guards(a, stop=lp), subst):
+                        for atom, pol in c:
+                            if "query(" in atom:
+                                continue
+                            hit = [v for v in vals if _re.search(rf"(?<![\w.]){_re.escape(v)}(?![\w])", atom)]
+                            if not hit and (".fields" in atom or ".tags" in atom) and (
+                                    ".get(" in atom or "[" in atom.split(".fields")[-1] or "[" in atom.split(".tags")[-1]):
+                                hit = ["<a value read from the point's fields/tags>"]
+                            if hit:
+                                bad.append(f"`{norm(a, 50)}` (line {a.lineno}) is additionally conditioned on the "
+                                           f"stored value `{hit[0]}` ({atom}): rows whose value fails the test "
+                                           f"silently drop out of the result")
             # the deserialised point used must be that of the same row
             for n in walk_local(lp):
                 if isinstance(n, ast.Call) and call_name(n) in ("_deserialize_storage_item", "_deserialize_timestamp",
@@ -121,7 +149,9 @@ def scan_guards(ctx):
                         bad.append(f"`{norm(n, 60)}` does not deserialise the loop's row `{item}`")
             if not acc and not rewriting:
                 bad.append("loop publishes no result")
-            yield Ob("C01.R5", props, f"{f.qual} | scan loop guards | for {norm(lp.target)} in {norm(lp.iter)}{occ(f, lp)}",
+            filter_problem = any("measurement filter" in b or "does not deserialise" in b for b in bad)
+            eff_props = props if (not bad or filter_problem) else [p_ for p_ in props if p_ != "C10"]
+            yield Ob("C01.R5", eff_props, f"{f.qual} | scan loop guards | for {norm(lp.target)} in {norm(lp.iter)}{occ(f, lp)}",
                      not bad, "; ".join(bad[:3]) if bad else
                      f"{len(acc)} result statement(s) guarded by the filter" +
                      (" and the query" if f.name in QUERY_CONSUMERS else ""), ctx.prog.loc(lp))
